@@ -4,6 +4,7 @@ import NixModel.Generated.LinkShape
 import NixModel.Lemmas.C05Accept
 import NixModel.Lemmas.C05Stale
 import NixModel.Lemmas.C05Hist
+import NixModel.Lemmas.C05Copy
 
 /-!
 # C05 — links are aliases of the original entity, never copies, and stay in their block
@@ -866,6 +867,51 @@ theorem deleted_entity_refused_forever (g : Graph) (c : Cont) (k : Nat) (hf : c.
 /-- any detached node, any history: the general form of the above -/
 theorem detached_stays_detached (g : Graph) (k : Nat) (hk0 : k ≠ 0) (hlt : k < g.nextKey) (hd : Detached g k)
     (ops : List HOp) : Detached (runH g ops) k := detached_runH hk0 hlt hd ops
+
+/-- **entities that live only inside a copy**: `Block.create_tag / create_multi_tag / create_data_array (copy_from=obj)`
+duplicates everything the source links to (the arrays a tag refers to, a multi-tag's positions …).  None of the nodes the
+copy made — they carry the names and, with `keep_copy_id`, the ids of members of a block — except the copy itself is a
+member of any block that existed before: every member list / reference list of such a block refuses it, as do
+`positions`, `extents` and feature data.  (`FileOk`: keys below the supply, link targets exist — C03's invariant.) -/
+theorem entities_inside_a_copy_refused (g g' : Graph) (hf : Nix.Store.C20.FileOk g) (bp : Path) (b : Loc)
+    (what cls name : String) (obj : Nat) (keepId : Bool)
+    (hb : resolve g rootLoc bp = some b) (hbk : kindOf g b.key = "block") (hcls : Nix.Store.C20.clsOf what = some cls)
+    (hk : kindOf g obj = what) (h0 : b.key ∈ keys g) (hc : copyIntoBlock g g bp what obj name keepId = .ok g')
+    (t' b2 : Nat) (hnew : (Nix.Store.C20.destG g b.key cls).nextKey ≤ t')
+    (hroot : t' ≠ Nix.Store.C20.copyMap g g b.key cls obj false obj)
+    (hb2 : b2 ∈ keys g) (hb2c : b2 ≠ Nix.Store.C20.destC g b.key cls) :
+    (∀ c' : Cont, c'.info.flavour = .link → c'.block = some b2 → ∃ e, contAppend g' c' (.ent t') = .error e) ∧
+    (∀ (p : Path) (o : Loc) (role : String), role = "positions" ∨ role = "extents" →
+      resolve g' rootLoc p = some o → kindOf g' o.key = "multi_tag" → blockOfPath g' p = some b2 →
+      ∃ e, setRole g' p role (some t') = .error e) ∧
+    (∀ (p : Path) (o : Loc), resolve g' rootLoc p = some o → kindOf g' o.key = "feature" →
+      blockOfPath g' p = some b2 → ∃ e, setRole g' p "data" (some t') = .error e) := by
+  have hm : ∀ store, inBlockStore g' b2 store t' = false := fun store =>
+    Nix.Store.C20.copyIntoBlock_inner_not_members hf hb hbk hcls hk h0 hc t' b2 store hnew hroot hb2 hb2c
+  refine ⟨?_, ?_, ?_⟩
+  · intro c' hfl hblk
+    cases hr : contAppend g' c' (.ent t') with
+    | error e => exact ⟨e, rfl⟩
+    | ok g'' =>
+      have := (accept_iff_same_block g' c' t' b2 hfl hblk).mp ⟨g'', hr⟩
+      rw [hm] at this
+      exact absurd this.2.2 (by simp)
+  · intro p o role hrole ho hko hbo
+    cases hr : setRole g' p role (some t') with
+    | error e => exact ⟨e, rfl⟩
+    | ok g'' =>
+      have := (accept_role_iff_same_block g' p role t' b2 o hrole ho hko hbo).mp ⟨g'', hr⟩
+      rw [hm] at this
+      exact absurd this.2 (by simp)
+  · intro p o ho hko hbo
+    cases hr : setRole g' p "data" (some t') with
+    | error e => exact ⟨e, rfl⟩
+    | ok g'' =>
+      have := (accept_feature_data_iff_same_block g' p t' b2 o ho hko hbo).mp ⟨g'', hr⟩
+      rw [hm, hm] at this
+      rcases this with h1 | h1
+      · exact absurd h1.2 (by simp)
+      · exact absurd h1.2.1 (by simp)
 
 /-- The reachable-state form: in every state reached by dimension and structural operations no
 range dimension has both ticks and a link.  `ticks_link_exclusive_invariant` proves the step for
